@@ -150,7 +150,45 @@ def one_case(rec, tap, rng, cid):
     rec.sample(desc, limit=3)
 
 
+def run_repository_suite(rec):
+    """the repository's own tests as an extra workload under the monitors"""
+    import json
+    import os
+    import subprocess
+    import sys
+    import tempfile
+    fd, out = tempfile.mkstemp(suffix=".json")
+    os.close(fd)
+    env = dict(os.environ, NANITE_VERIF="1", NV_PLUGIN_OUT=out)
+    try:
+        p = subprocess.run([sys.executable, "-m", "pytest",
+                            str(core.REPO / "tests"), "-p",
+                            "vm.pytest_plugin", "-p", "no:cacheprovider",
+                            "-q", "-x"], cwd=str(core.REPO), env=env,
+                           capture_output=True, text=True, timeout=1500)
+        res = json.load(open(out))
+    except BaseException as e:  # noqa
+        rec.event("repository suite under monitors: not available (%s)"
+                  % type(e).__name__)
+        return
+    finally:
+        if os.path.exists(out):
+            os.unlink(out)
+    rec.note("repository suite under monitors", p.stdout.strip()
+             .splitlines()[-1] if p.stdout.strip() else "?")
+    rec.evaluations += res["evaluations"]
+    rec.digests.update(res["digests"])
+    for k, v in res["events"].items():
+        rec.event(k, v)
+    for v in res["violations"]:
+        rec.violation(v["key"], v["what"], v["case"])
+    for r in res["inconclusive"]:
+        rec.inconclusive_because(r)
+
+
 def run_shard(rec, tier, seed, shard, nshards):
+    if tier == "thorough" and shard == 0:
+        run_repository_suite(rec)
     mods = hmodels.register_all()
     try:
         with fitlab.MinimizeTap() as tap:
